@@ -297,7 +297,7 @@ def run_c01(spec, v):
 # --- invalid graphs --------------------------------------------------------------
 
 FAULTS = ['control_into_audio_out', 'nan_input', 'none_input', 'str_input',
-          'tuple_input', 'first_input_rate', 'name_too_long',
+          'tuple_input', 'tuple_input_known_constants', 'first_input_rate', 'name_too_long',
           'name_non_ascii', 'name_empty_ok', 'variant_name_too_long',
           'variant_unknown_control', 'variant_too_many_values']
 
@@ -358,6 +358,10 @@ def run_invalid(case, v):
             getattr(U['Out'], r)(0, sig)
         elif fault == 'tuple_input':
             U['Out'].ar(0, U['SinOsc'].ar((440, 441), 0))
+        elif fault == 'tuple_input_known_constants':
+            # the members of the tuple are constants of the graph already
+            U['Out'].ar(0, [U['SinOsc'].ar(440, 0), U['SinOsc'].ar(441, 0),
+                            U['SinOsc'].ar((440, 441), 0)])
         elif fault == 'first_input_rate':
             U['Out'].ar(0, U['LPF'].ar(U['SinOsc'].kr(3, 0), 800))
 
